@@ -610,6 +610,55 @@ func standalonePhase(r *ev.Run) {
 	}
 }
 
+// twoRootsFatal: with ErrorOnFSErrors a traversal failure fails the scan - also when it happens in a
+// LATER scan root after an earlier root already delivered packages. For every tree (<=3 nodes) as
+// second root and every single fault that makes its one-root scan fail, the two-root scan
+// [healthy root with a package, that root with the same fault] must report FAILED as well.
+func twoRootsFatal(r *ev.Run) {
+	healthy := memfs.D("", memfs.F("p1.txt", "1"))
+	mkEx := func() []filesystem.Extractor {
+		return []filesystem.Extractor{&scankit.Ex{N: "ex1", Req: scankit.ReqBase("p1.txt", "p2.txt")}}
+	}
+	for n := 1; n <= 3; n++ {
+		for _, root := range genTrees(n) {
+			ts := root.String()
+			ref := memfs.New(root)
+			cfg := &scalibr.ScanConfig{FilesystemExtractors: mkEx(), Capabilities: &plugin.Capabilities{}, ScanRoots: []*scalibrfs.ScanRoot{{FS: ref, Path: ""}}, ErrorOnFSErrors: true}
+			scalibr.New().Scan(context.Background(), cfg)
+			seen := map[string]bool{}
+			for _, site := range ref.Log {
+				if seen[site] {
+					continue
+				}
+				seen[site] = true
+				for _, k := range kindOrder {
+					one := memfs.New(root)
+					one.Faults = map[string]error{site: kinds[k]}
+					c1 := &scalibr.ScanConfig{FilesystemExtractors: mkEx(), Capabilities: &plugin.Capabilities{}, ScanRoots: []*scalibrfs.ScanRoot{{FS: one, Path: ""}}, ErrorOnFSErrors: true}
+					r1 := scalibr.New().Scan(context.Background(), c1)
+					if r1.Status.Status != plugin.ScanStatusFailed {
+						continue // not a traversal failure (e.g. a failing open of a file)
+					}
+					two := memfs.New(root)
+					two.Faults = map[string]error{site: kinds[k]}
+					c2 := &scalibr.ScanConfig{FilesystemExtractors: mkEx(), Capabilities: &plugin.Capabilities{}, ErrorOnFSErrors: true,
+						ScanRoots: []*scalibrfs.ScanRoot{{FS: memfs.New(healthy), Path: ""}, {FS: two, Path: ""}}}
+					var r2 *scalibr.ScanResult
+					p, stack := ev.Recover(func() { r2 = scalibr.New().Scan(context.Background(), c2) })
+					r.Evals.Add(1)
+					r.Nontrivial.Add(1)
+					rp := map[string]any{"second_root": ts, "faults": []fault{{site, k}}}
+					if p != nil {
+						r.Violation("two-roots:panic", fmt.Sprintf("%v at %s", p, ev.PanicSite(stack)), rp)
+					} else if r2.Status.Status != plugin.ScanStatusFailed {
+						r.Violation("traversal-fault-not-fatal-on-request", fmt.Sprintf("ErrorOnFSErrors, roots [healthy root with a package, %s with fault %s/%s]: the second root alone fails the scan, the two-root scan reports %s", ts, site, k, r2.Status), rp)
+					}
+				}
+			}
+		}
+	}
+}
+
 func faultMap(fs []fault) map[string]error {
 	m := map[string]error{}
 	for _, f := range fs {
@@ -728,8 +777,9 @@ func main() {
 		r.Set(fmt.Sprintf("trees_with_%d_nodes", n), len(trees))
 	}
 	standalonePhase(r)
+	twoRootsFatal(r)
 	r.Set("bound", map[string]any{"single_faults_complete_up_to_nodes": completed, "fault_pairs_complete_up_to_nodes": completedPairs, "configs": len(cfgs)})
 	r.Assume("memfs numbers every FS operation of a scan deterministically; a fault is identified by (operation, path, occurrence)")
 	r.Assume("UseGitignore stays off: the property's quantifier lists the operation sites of the plain walk")
-	r.Finish(fmt.Sprintf("every tree with <=%d nodes holding >=1 required file (dirs a,b; p1.txt, p2.txt (required by 2 extractors), x.bin (exec, predicate calls Stat), junk) x {ErrorOnFSErrors} x {MaxFileSize 0,100} x {ReadDirFile, fallback} x 2 extractor sets x {whole-tree walk, explicitly requested directory, explicitly requested file, directory then file, file then directory}: every single fault = every operation site of the fault-free run x {permission, I/O, not-exist}; every pair of sites (trees <=%d nodes) with 3 kind combinations; each faulted Scan compared with the fault-free Scan; plus a standalone extractor that reads every file of the root itself (trees <=3 nodes, every single fault, returning nothing or its partial results with the error): its status reflects the error it returned, the next extractor and the scan carry on; for single faults on trees <=4 nodes the same configuration is then scanned again without the fault and must equal the fault-free scan. non-trivial = runs in which every injected fault was actually reached (a first fault can mask the second)", maxNodes, pairNodes), completed == maxNodes)
+	r.Finish(fmt.Sprintf("every tree with <=%d nodes holding >=1 required file (dirs a,b; p1.txt, p2.txt (required by 2 extractors), x.bin (exec, predicate calls Stat), junk) x {ErrorOnFSErrors} x {MaxFileSize 0,100} x {ReadDirFile, fallback} x 2 extractor sets x {whole-tree walk, explicitly requested directory, explicitly requested file, directory then file, file then directory}: every single fault = every operation site of the fault-free run x {permission, I/O, not-exist}; every pair of sites (trees <=%d nodes) with 3 kind combinations; each faulted Scan compared with the fault-free Scan; plus a standalone extractor that reads every file of the root itself (trees <=3 nodes, every single fault, returning nothing or its partial results with the error): its status reflects the error it returned, the next extractor and the scan carry on; plus two roots under ErrorOnFSErrors (a healthy root with a package, then each tree <=3 nodes with each single fault that fails its one-root scan): the two-root scan fails too; for single faults on trees <=4 nodes the same configuration is then scanned again without the fault and must equal the fault-free scan. non-trivial = runs in which every injected fault was actually reached (a first fault can mask the second)", maxNodes, pairNodes), completed == maxNodes)
 }
